@@ -400,8 +400,13 @@ fn parse_steps<P: HP>(t: &[&str]) -> Option<Vec<VStep<P>>> {
         .collect()
 }
 
-fn nav<'a, P: HP, T: HV>(mut v: TrieView<'a, P, T>, steps: &[VStep<P>]) -> Result<TrieView<'a, P, T>, String> {
-    for (i, s) in steps.iter().enumerate() {
+fn nav<'a, P: HP, T: HV>(v: TrieView<'a, P, T>, steps: &[VStep<P>]) -> Result<TrieView<'a, P, T>, String> {
+    nav_from(v, steps, 0)
+}
+
+/// `steps[..done]` have been taken already (by the container's own `view_at`)
+fn nav_from<'a, P: HP, T: HV>(mut v: TrieView<'a, P, T>, steps: &[VStep<P>], done: usize) -> Result<TrieView<'a, P, T>, String> {
+    for (i, s) in steps.iter().enumerate().skip(done) {
         let next = match s {
             VStep::At(q) => v.clone().view_at(q.clone()),
             VStep::Find(q) => v.find(q.clone()),
@@ -418,8 +423,12 @@ fn nav<'a, P: HP, T: HV>(mut v: TrieView<'a, P, T>, steps: &[VStep<P>]) -> Resul
     Ok(v)
 }
 
-fn nav_mut<'a, P: HP, T: HV>(mut v: TrieViewMut<'a, P, T>, steps: &[VStep<P>]) -> Result<TrieViewMut<'a, P, T>, String> {
-    for (i, s) in steps.iter().enumerate() {
+fn nav_mut<'a, P: HP, T: HV>(v: TrieViewMut<'a, P, T>, steps: &[VStep<P>]) -> Result<TrieViewMut<'a, P, T>, String> {
+    nav_mut_from(v, steps, 0)
+}
+
+fn nav_mut_from<'a, P: HP, T: HV>(mut v: TrieViewMut<'a, P, T>, steps: &[VStep<P>], done: usize) -> Result<TrieViewMut<'a, P, T>, String> {
+    for (i, s) in steps.iter().enumerate().skip(done) {
         let cur = fnet(v.prefix());
         let next = match s {
             VStep::At(q) => match v.view_mut_at(q.clone()) {
@@ -1421,21 +1430,48 @@ fn step<P: HP>(st: &mut St<P>, line: &str) -> String {
         ["view", r, rest @ ..] => {
             let (steps, action) = split_colon(rest);
             let Some(steps) = parse_steps::<P>(steps) else { return "bad-op".into() };
-            with_view!(st, *r, |v| match nav(v, &steps) {
-                Ok(v) => view_action(v, action),
-                Err(e) => e,
-            })
+            // a leading `at:q` goes through the container's own `AsView::view_at` (maps and sets implement the trait
+            // separately); everything else starts from `view()`
+            macro_rules! go {
+                ($m:expr) => {{
+                    let start = match steps.first() {
+                        Some(VStep::At(q)) => match $m.view_at(q.clone()) {
+                            Some(v) => Ok((v, 1)),
+                            None => Err(format!("fail@0;back={}", fnet($m.view().prefix()))),
+                        },
+                        _ => Ok(($m.view(), 0)),
+                    };
+                    match start.and_then(|(v, done)| nav_from(v, &steps, done)) {
+                        Ok(v) => view_action(v, action),
+                        Err(e) => e,
+                    }
+                }};
+            }
+            match *r {
+                "A" => go!(&st.a),
+                "B" => go!(&st.b),
+                "S" => go!(&st.s),
+                _ => "bad-op".into(),
+            }
         }
         ["viewmut", r, rest @ ..] => {
             let (steps, action) = split_colon(rest);
             let Some(steps) = parse_steps::<P>(steps) else { return "bad-op".into() };
             macro_rules! go {
-                ($m:expr) => {
-                    match nav_mut($m.view_mut(), &steps) {
+                ($m:expr) => {{
+                    let root = fnet((&*$m).view().prefix());
+                    let start = match steps.first() {
+                        Some(VStep::At(q)) => match $m.view_mut_at(q.clone()) {
+                            Some(v) => Ok((v, 1)),
+                            None => Err(format!("fail@0;back={}", root)),
+                        },
+                        _ => Ok(($m.view_mut(), 0)),
+                    };
+                    match start.and_then(|(v, done)| nav_mut_from(v, &steps, done)) {
                         Ok(v) => viewmut_action(v, action),
                         Err(e) => e,
                     }
-                };
+                }};
             }
             match *r {
                 "A" => go!(&mut st.a),
